@@ -92,6 +92,7 @@ def _propagate(fn: ast.FunctionDef) -> None:
         params = {a.arg for a in fn.args.posonlyargs + fn.args.args + fn.args.kwonlyargs}
         attr_stores = set()
         mutation_sites = []
+        self_calls: List[ast.Call] = []
         for x in ast.walk(fn):
             if isinstance(x, ast.Attribute) and isinstance(x.ctx, (ast.Store, ast.Del)):
                 attr_stores.add(x.attr)
@@ -103,6 +104,9 @@ def _propagate(fn: ast.FunctionDef) -> None:
                     and isinstance(x.func.value, ast.Attribute):
                 attr_stores.add(x.func.value.attr)
                 mutation_sites.append((x.func.value.attr, x))
+            elif isinstance(x, ast.Call) and isinstance(x.func, ast.Attribute) and isinstance(x.func.value, ast.Name) \
+                    and x.func.value.id == "self":
+                self_calls.append(x)
         cand: Optional[ast.Assign] = None
         for n in ast.walk(fn):
             if isinstance(n, ast.Assign) and len(n.targets) == 1 and isinstance(n.targets[0], ast.Name):
@@ -116,19 +120,25 @@ def _propagate(fn: ast.FunctionDef) -> None:
                 read_attrs = {x.attr for x in ast.walk(n.value) if isinstance(x, ast.Attribute)}
                 read_recv = {(ast.unparse(x.value), x.attr) for x in ast.walk(n.value) if isinstance(x, ast.Attribute)}
                 relevant = [m for m in mutation_sites if m[0] in read_attrs and (_recv_text(m[1]), m[0]) in read_recv]
+                if read_attrs and self_calls:
+                    # a method of the object itself may change any field the value reads
+                    relevant = relevant + [("*", c) for c in self_calls if not any(c is x for x in ast.walk(n.value))]
                 if relevant:
-                    # allowed only if every use precedes every change of these attributes (and no loop contains both)
+                    # allowed only if no change of these attributes lies between the definition and its last use (in evaluation
+                    # order), and no loop that does not contain the definition contains both a use and a change
+                    order = _eval_order(fn)
                     uses_ = [x for x in ast.walk(fn) if isinstance(x, ast.Name) and x.id == name and isinstance(x.ctx, ast.Load)]
-                    muts = relevant
-                    if not uses_ or not muts:
+                    if not uses_:
                         continue
-                    if max(u.lineno for u in uses_) >= min(m[1].lineno for m in muts):
+                    d0 = order.get(id(n.targets[0]), 0)
+                    last = max(order.get(id(u), 0) for u in uses_)
+                    if any(d0 < order.get(id(m[1]), 0) <= last for m in relevant):
                         continue
                     shared_loop = False
                     for lp in ast.walk(fn):
                         if isinstance(lp, (ast.For, ast.While)):
                             inside = {id(x) for x in ast.walk(lp)}
-                            if any(id(u) in inside for u in uses_) and any(id(m[1]) in inside for m in muts):
+                            if id(n) not in inside and any(id(u) in inside for u in uses_) and any(id(m[1]) in inside for m in relevant):
                                 shared_loop = True
                     if shared_loop:
                         continue
@@ -146,6 +156,31 @@ def _propagate(fn: ast.FunctionDef) -> None:
         _Subst({name: cand.value}).visit(fn)
         _remove_stmt(fn, cand)
         ast.fix_missing_locations(fn)
+
+
+def _eval_order(fn: ast.AST) -> Dict[int, int]:
+    """approximate evaluation order: right-hand sides before targets, otherwise source order"""
+    order: Dict[int, int] = {}
+
+    def visit(n: ast.AST) -> None:
+        if isinstance(n, (ast.Assign, ast.AugAssign, ast.AnnAssign)):
+            if getattr(n, "value", None) is not None:
+                visit(n.value)
+            for t in (n.targets if isinstance(n, ast.Assign) else [n.target]):
+                visit(t)
+            order[id(n)] = len(order) + 1
+            return
+        if isinstance(n, ast.Call):
+            for c in list(n.args) + [k.value for k in n.keywords]:
+                visit(c)
+            visit(n.func)
+            order[id(n)] = len(order) + 1
+            return
+        for c in ast.iter_child_nodes(n):
+            visit(c)
+        order[id(n)] = len(order) + 1
+    visit(fn)
+    return order
 
 
 def _recv_text(node: ast.AST) -> str:
@@ -173,20 +208,71 @@ def _remove_stmt(root: ast.AST, stmt: ast.stmt) -> None:
                     return
 
 
-def _simple_helper(fn: ast.FunctionDef) -> Optional[str]:
-    """'expr' for `return <expr>`, 'stmts' for straight-line bodies without return / yield, else None"""
+def _helper_kind(fn: ast.FunctionDef) -> Optional[str]:
+    """
+    'tail'  : arbitrary body (may return early): inlinable where the call is `return self._h(..)`, and, if it never returns a
+              value, where the call is the last statement of a block that ends the function;
+    'stmts' : no return at all: inlinable as a statement anywhere;
+    'value' : straight-line prefix followed by one final `return <expr>` and no other return: inlinable inside any simple statement.
+    """
     body = body_without_docstring(fn)
-    if not body or len(body) > 12:
+    if not body or len(body) > 40:
         return None
     if fn.args.vararg or fn.args.kwarg or fn.decorator_list:
         return None
-    if any(isinstance(n, (ast.Yield, ast.YieldFrom)) for n in ast.walk(fn)):
+    if any(isinstance(n, (ast.Yield, ast.YieldFrom, ast.Await)) for n in ast.walk(fn)):
         return None
-    if len(body) == 1 and isinstance(body[0], ast.Return) and body[0].value is not None:
-        return "expr"
-    if not any(isinstance(n, ast.Return) for n in ast.walk(fn)):
+    rets = [n for n in ast.walk(fn) if isinstance(n, ast.Return)]
+    if not rets:
         return "stmts"
-    return None
+    if len(rets) == 1 and rets[0] is body[-1] and rets[0].value is not None:
+        return "value"
+    return "tail"
+
+
+_COUNTER = [0]
+
+
+def _instantiate(h: ast.FunctionDef, call: ast.Call, host: ast.FunctionDef):
+    """deep copy of the helper body with parameters bound by assignments and locals renamed apart; None if not applicable"""
+    ps = param_names(h)
+    defaults = h.args.defaults
+    args = list(call.args)
+    if any(isinstance(a, ast.Starred) for a in args):
+        return None
+    kw = {k.arg: k.value for k in call.keywords}
+    if None in kw:
+        return None
+    bound: Dict[str, ast.AST] = {}
+    for i, p_ in enumerate(ps):
+        if i < len(args):
+            bound[p_] = args[i]
+        elif p_ in kw:
+            bound[p_] = kw.pop(p_)
+        elif i >= len(ps) - len(defaults):
+            bound[p_] = defaults[i - (len(ps) - len(defaults))]
+        else:
+            return None
+    if kw or len(args) > len(ps):
+        return None
+    _COUNTER[0] += 1
+    tag = f"@{h.name}#{_COUNTER[0]}"
+    hb = copy.deepcopy(body_without_docstring(h))
+    mod = ast.Module(body=hb, type_ignores=[])
+    local_names = set(_stores(mod)) | set(ps)
+    for x in ast.walk(mod):
+        if isinstance(x, ast.Name) and x.id in local_names:
+            x.id = x.id + tag
+    pre: List[ast.stmt] = []
+    for p_, a in bound.items():
+        st = ast.Assign(targets=[ast.Name(id=p_ + tag, ctx=ast.Store())], value=copy.deepcopy(a))
+        pre.append(ast.copy_location(st, call))
+    for st in hb:
+        for x in ast.walk(st):
+            if hasattr(x, "lineno"):
+                x.lineno = getattr(call, "lineno", x.lineno)
+                x.end_lineno = getattr(call, "end_lineno", None)
+    return pre + hb
 
 
 def _inline_helpers(prog: Program, cls: ClassInfo, fn: ast.FunctionDef, exclude: Set[str], depth: int = 0) -> None:
@@ -197,66 +283,100 @@ def _inline_helpers(prog: Program, cls: ClassInfo, fn: ast.FunctionDef, exclude:
     def helper_of(call: ast.AST):
         if isinstance(call, ast.Call) and isinstance(call.func, ast.Attribute) and isinstance(call.func.value, ast.Name) \
                 and call.func.value.id == "self" and call.func.attr.startswith("_") and not call.func.attr.startswith("__") \
-                and call.func.attr in methods and call.func.attr not in exclude and call.func.attr != fn.name and not call.keywords \
-                and not any(isinstance(a, ast.Starred) for a in call.args):
+                and call.func.attr in methods and call.func.attr not in exclude and call.func.attr != fn.name:
             owner, h = methods[call.func.attr]
             if owner.is_abstract_method(call.func.attr):
                 return None
-            kind = _simple_helper(h)
-            ps = param_names(h)
-            if kind and len(ps) == len(call.args):
-                return h, kind, ps
+            # overridden somewhere below the class: the callee is not unique, leave the call
+            kind = _helper_kind(h)
+            if kind:
+                return h, kind
         return None
 
     changed = False
-    # statement helpers
-    for n in ast.walk(fn):
-        for fld in ("body", "orelse", "finalbody"):
-            b = getattr(n, fld, None)
-            if not isinstance(b, list):
-                continue
-            new: List[ast.stmt] = []
-            for st in b:
-                r = helper_of(st.value) if isinstance(st, ast.Expr) else None
-                if r and r[1] == "stmts":
-                    h, _, ps = r
-                    hb = copy.deepcopy(body_without_docstring(h))
-                    mapping = {p: a for p, a in zip(ps, st.value.args)}
-                    # only substitute parameters that the helper never rebinds
-                    rebound = _stores(ast.Module(body=hb, type_ignores=[]))
-                    if any(p in rebound for p in ps):
-                        new.append(st)
+
+    def do_block(b: List[ast.stmt], ends_function: bool) -> List[ast.stmt]:
+        nonlocal changed
+        new: List[ast.stmt] = []
+        for k, st in enumerate(b):
+            last = k == len(b) - 1
+            # nested blocks
+            for fld in ("body", "orelse", "finalbody"):
+                sub = getattr(st, fld, None)
+                if isinstance(sub, list) and sub and isinstance(sub[0], ast.stmt):
+                    inner_ends = ends_function and last and isinstance(st, (ast.If, ast.With, ast.Try))
+                    setattr(st, fld, do_block(sub, inner_ends))
+            if isinstance(st, ast.Try):
+                for hd in st.handlers:
+                    hd.body = do_block(hd.body, ends_function and last)
+            # return self._h(..)
+            if isinstance(st, ast.Return) and st.value is not None:
+                r = helper_of(st.value)
+                if r:
+                    inst = _instantiate(r[0], st.value, fn)
+                    if inst is not None:
+                        if r[1] == "stmts":
+                            inst = inst + [ast.copy_location(ast.Return(value=ast.Constant(value=None)), st)]
+                        new.extend(inst)
+                        changed = True
                         continue
-                    locals_ = set(rebound)
-                    clash = locals_ & ({x.id for x in ast.walk(fn) if isinstance(x, ast.Name)} - set(ps))
-                    ren = {v: ast.Name(id=f"{v}@{h.name}", ctx=ast.Load()) for v in clash}
-                    for s2 in hb:
-                        _Subst(mapping).visit(s2)
-                        if ren:
-                            for x in ast.walk(s2):
-                                if isinstance(x, ast.Name) and x.id in ren:
-                                    x.id = f"{x.id}@{h.name}"
-                    new.extend(hb)
-                    changed = True
-                else:
-                    new.append(st)
-            b[:] = new
-    # expression helpers
-    class T(ast.NodeTransformer):
-        def visit_Call(self, node: ast.Call):
-            self.generic_visit(node)
-            r = helper_of(node)
-            if r and r[1] == "expr":
-                h, _, ps = r
-                e = copy.deepcopy(body_without_docstring(h)[0].value)
-                nonlocal changed
-                changed = True
-                return ast.copy_location(_Subst({p: a for p, a in zip(ps, node.args)}).visit(e), node)
-            return node
-    T().visit(fn)
+            # self._h(..) as a statement
+            if isinstance(st, ast.Expr):
+                r = helper_of(st.value)
+                if r and (r[1] == "stmts" or (r[1] == "tail" and ends_function and last
+                                              and all(x.value is None for x in ast.walk(r[0]) if isinstance(x, ast.Return)))):
+                    inst = _instantiate(r[0], st.value, fn)
+                    if inst is not None:
+                        new.extend(inst)
+                        changed = True
+                        continue
+                if r and r[1] == "value":
+                    inst = _instantiate(r[0], st.value, fn)
+                    if inst is not None:
+                        new.extend(inst[:-1] + [ast.copy_location(ast.Expr(value=inst[-1].value), st)])
+                        changed = True
+                        continue
+            # value helpers inside a simple statement
+            if isinstance(st, (ast.Assign, ast.AugAssign, ast.AnnAssign, ast.Return, ast.Expr)):
+                calls = [c for c in ast.walk(st) if helper_of(c) and helper_of(c)[1] == "value"]
+                # never inside a lambda / comprehension (different scope, evaluated repeatedly)
+                scoped = {id(x) for sc in ast.walk(st) if isinstance(sc, (ast.Lambda, ast.ListComp, ast.SetComp, ast.DictComp, ast.GeneratorExp))
+                          for x in ast.walk(sc)}
+                calls = [c for c in calls if id(c) not in scoped]
+                if calls:
+                    c = calls[0]
+                    inst = _instantiate(helper_of(c)[0], c, fn)
+                    if inst is not None:
+                        new.extend(inst[:-1])
+
+                        class R(ast.NodeTransformer):
+                            def visit_Call(self, node):
+                                if node is c:
+                                    return inst[-1].value
+                                return self.generic_visit(node)
+                        new.append(R().visit(st))
+                        changed = True
+                        continue
+            new.append(st)
+        return new
+
+    fn.body = do_block(fn.body, True)
     if changed:
         ast.fix_missing_locations(fn)
         _inline_helpers(prog, cls, fn, exclude, depth + 1)
+
+
+def flat(stmts: List[ast.stmt]) -> List[ast.stmt]:
+    """the guard-clause reading of a canonical block: `if c: <leaves> else: rest` is listed as `if c: <leaves>` followed by rest"""
+    out: List[ast.stmt] = []
+    for s in stmts:
+        if isinstance(s, ast.If) and s.orelse and _terminates(s.body):
+            g = ast.copy_location(ast.If(test=s.test, body=s.body, orelse=[]), s)
+            out.append(g)
+            out.extend(flat(s.orelse))
+        else:
+            out.append(s)
+    return out
 
 
 def canon(prog: Program, cls: Optional[ClassInfo], fn: ast.FunctionDef, exclude: Iterable[str] = (), helpers: bool = True,
